@@ -145,8 +145,8 @@ def specBuild (prop : String) (ba : BuildArgs) (o : Out) : Option String :=
            (match decodeSym s with
             | .ok r => (match r.parsed with
                 | some p => cmp "encoded-mode" (toString md) (modeIxStr p.mode)
-                | none => none)
-            | .error _ => none)]
+                | none => some "codewords-read-under-the-reported-level-and-mask-are-not-a-data-stream")
+            | .error e => some ("symbol-does-not-read-under-the-reported-level-and-mask:" ++ e))]
        | _, _, _, _ => some "a-field-is-not-reported")
     | "C06" =>
       (match decodeSym s, s.mode with
